@@ -503,7 +503,7 @@ theorem MirrorInv.step (o : List Addr) (s s' : Sys) (m : Msg) (rest subs : List 
       · have : a = rewardA := by have := sb x hin; rw [hxe] at this; exact this
         rw [← own]; exact internal_not_owner w' a (by rw [this]; simp [internal])
       · exact restSenders x hin a b' c d' hxe
-  | disp env sender funds dm heq hx' h b t r g =>
+  | disp env sender funds dm heq _ _ hx' h b t r g =>
     have cfg : s'.disp.owner = s.disp.owner ∧ s'.disp.newOwner = s.disp.newOwner := by
       rcases dispExec_config _ _ _ _ _ _ _ hx' with c | c | c
       · exact ⟨c.2.1, c.2.2⟩
